@@ -6,9 +6,11 @@ x filesystem x sample-pattern block; every product is opened with the public
 bit for bit (32-bit words / 16-bit words as unsigned integers) with the bytes
 the independent encoder wrote.
 """
+import os
+
 import numpy as np
 
-from mc import core, harness, synth
+from mc import core, env, harness, synth
 
 ID = "C01"
 LEVEL = "exploration"
@@ -247,6 +249,91 @@ def execute_twins(case):
     return {"ok": not fails, "failures": fails, "outcome": "twins-ok" if not fails else fails[0]["sig"]["kind"], "nontrivial": True}
 
 
+# pairs of sibling product directories whose names look alike (spelling, case, separators, Unicode forms, prefixes)
+SIBLINGS = [
+    ("ALOS2/Scene_0740", "alos2/scene_0740"),
+    ("scene", "SCENE"),
+    ("Straße", "STRASSE"),
+    ("scene", "scene "),
+    ("scene", "scene."),
+    ("scene", "scene_"),
+    ("scene", "scene/sub"),
+    ("a/b", "a_b"),
+    ("a/b", "a%2Fb"),
+    ("a b", "a%20b"),
+    ("sc\u00e9ne", "sce\u0301ne"),
+    ("scene-1", "scene-10"),
+    ("scene", "scene#1"),
+    ("scene", "scene?x"),
+    ("x/scene", "y/scene"),
+]
+
+
+def execute_siblings(case):
+    """two different product directories with look-alike names hold an image file of the same name but different geometry; an
+    index cache is created for one, then the other is opened with the defaults (and the other way round): each tree shows its own
+    file's pixels"""
+    import shutil
+
+    import fsspec
+
+    lib = env.import_lib()
+    env.wipe_cache()
+    a, b = case["pair"]
+    fs_kind, rpc = case["fs"], case["rpc"]
+    tag = f"sib_{os.getpid()}"
+    geo = {a: (6, 9), b: (9, 14)}
+    prods = {}
+    base = env.scratch_root() / tag
+    if base.exists():
+        shutil.rmtree(base)
+    mem = fsspec.filesystem("memory")
+    for name, (L, P) in geo.items():
+        spec = synth.product_spec("1.5", images=[synth.image_spec("HH", None, L, P, "IU2")])
+        files, _ = synth.build(spec)
+        if fs_kind == "memory":
+            url = synth.write_memory(f"/{tag}/{name}", files)
+        else:
+            synth.write_local(base / name, files)
+            url = str(base / name) if fs_kind == "local" else "file://" + str(base / name)
+        prods[name] = (url, synth.default_samples(L, P, "IU2", 0).astype("uint16"))
+    fails = []
+
+    def check(name, what, **kw):
+        url, want = prods[name]
+        try:
+            kw = {k: v for k, v in kw.items() if v is not None}
+            var = lib.open_alos2(url + case.get("suffix", ""), backend_options=kw)["imagery/HH/data"]
+            vals = np.asarray(var.values)
+            if tuple(var.shape) != want.shape or vals.shape != want.shape or not np.array_equal(vals, want):
+                fails.append({"sig": {"kind": "sibling-value", "what": what}, "detail": f"{case}: {name!r} {what}: shape {tuple(var.shape)}, its file holds {want.shape}; values {'differ' if vals.shape == want.shape else 'n/a'}", "case": {**case, "fn": "execute_siblings"}})
+        except Exception as e:
+            fails.append({"sig": {"kind": "sibling-raises", "what": what, "exc": type(e).__name__}, "detail": f"{case}: {name!r} {what}: {type(e).__name__}: {str(e)[:100]}", "case": {**case, "fn": "execute_siblings"}})
+
+    try:
+        for first, second in ((a, b), (b, a)):
+            env.wipe_cache()
+            check(first, "opened with create_cache=True", create_cache=True, records_per_chunk=rpc)
+            check(second, "opened with the defaults after a cache was made for its sibling", records_per_chunk=rpc)
+            check(second, "opened with create_cache=True after a cache was made for its sibling", create_cache=True, records_per_chunk=rpc)
+            check(first, "opened with the defaults after both were cached", records_per_chunk=rpc)
+            check(second, "opened with the defaults after both were cached", records_per_chunk=rpc)
+    finally:
+        env.wipe_cache()
+        shutil.rmtree(base, ignore_errors=True)
+        if fs_kind == "memory":
+            try:
+                mem.rm(f"/{tag}", recursive=True)
+            except Exception:
+                pass
+    seen, uniq = set(), []
+    for f in fails:
+        if core.jkey(f["sig"]) not in seen:
+            seen.add(core.jkey(f["sig"]))
+            uniq.append(f)
+    return {"ok": not uniq, "failures": uniq, "outcome": "siblings-ok" if not uniq else uniq[0]["sig"]["kind"], "nontrivial": True}
+
+
 def large_plan(tier):
     cases = []
     for tc, L, P in (("IU2", 640, 1000), ("C*8", 320, 600)):
@@ -308,7 +395,8 @@ def run(res, tier, seed):
         " beyond 64 MiB, requests of 5..96 MB; 260 MB in the thorough tier),"
         " and 2500x8 IU2 / 2100x3 C*8 x rpc {default,1,100,256,1000,1024,2048} (10000 and 70000 lines in the thorough tier), each with"
         " full / single-line / window / strided reads, results held across later reads, deep copies and pickle round trips of the tree; 5-line images whose request"
-        " span is exactly 2^16, 2^20, 2^21, 3*2^20, 2^22, 2^23 bytes; pairs of a 1.1 and a 1.5 image with equal record length opened in one process in both orders"
+        " span is exactly 2^16, 2^20, 2^21, 3*2^20, 2^22, 2^23 bytes; pairs of a 1.1 and a 1.5 image with equal record length opened in one process in both orders;"
+        " 15 pairs of look-alike sibling product directories (case, separators, escapes, Unicode forms, prefixes) holding a same-named image of different geometry, x {local, file://, memory://}, cached and opened in both orders"
     )
     res.assumptions = [
         "signalling-NaN bit patterns are excluded (copy semantics are CPU/NumPy properties)",
@@ -320,3 +408,6 @@ def run(res, tier, seed):
     twins = [{"L": L, "rpc": rpc, "P11": p11, "reverse": rev, "fs": fs} for L in (3, 5, 60) for rpc in (1, 2, 4, 1024) for p11 in (1, 2, 8) for rev in (False, True) for fs in ("mcfs", "local")]
     for idx, case, out in core.pool_map(__name__, "execute_twins", twins, chunksize=4):
         res.record({**case, "fn": "execute_twins"}, out, order=2 * 10**6 + idx)
+    sib = [{"pair": list(pair), "fs": fs, "rpc": rpc, "suffix": sfx} for pair in SIBLINGS for fs in ("local", "file", "memory") for rpc, sfx in ((None, ""), (4, "/"))]
+    for idx, case, out in core.pool_map(__name__, "execute_siblings", sib, chunksize=2):
+        res.record({**case, "fn": "execute_siblings"}, out, order=3 * 10**6 + idx)
